@@ -465,9 +465,11 @@ class Bin(Factory, Container):
             np.floor(q, q)
             q = np.array(q, dtype=int)
             # the division can round up to num for values just below high (see Bin.bin)
-            q[(q == self.num) & selection] = self.num - 1
-            # and it can underflow to -0.0 for values a few denormals below low (already in underflow)
+            np.minimum(q, self.num - 1, q)
+            # and it can round into range for values at or beyond the limits (already in a flow):
+            # -0.0 a few denormals below low, num - 1 at high when (high - low) * num is inexact
             q[below] = -1
+            q[np.logical_not(selection)] = -1
 
             for index, value in enumerate(self.values):
                 np.not_equal(q, index, selection)
